@@ -142,7 +142,7 @@ def make_special_case(rng, kind):
     return None
 
 
-def make_kinematics(rng, case, scale=1, decouple=False):
+def make_kinematics(rng, case, scale=1, decouple=False, plane=None):
     """external momenta (exactly conserved, dyadic), masses, a spanning tree with its fundamental signature and the
     tree routing of the external momenta"""
     edges, D = case["edges"], case["D"]
@@ -158,7 +158,7 @@ def make_kinematics(rng, case, scale=1, decouple=False):
         ext_mom[ext[-1]] = [-t for t in tot]
     elif len(ext) == 1:
         ext_mom[ext[0]] = [Fraction(0)] * D
-    plane = D >= 2 and rng.random() < 0.1
+    plane = D >= 2 and (rng.random() < 0.1 if plane is None else plane)
     if plane:
         # all external momenta (and, in make_routing, all offsets) in the hyperplane orthogonal to the first axis: every shift has an
         # exactly zero first component
@@ -234,6 +234,11 @@ def point(rng, dim, kind="uniform", n_edges=None):
         # legal coordinates far below 2^-52 (a clamp to f64::EPSILON, a guard against 'singular' input, ... would change the parameters)
         for i in rng.sample(xi_slots, min(len(xi_slots), rng.randint(1, 2))):
             xs[i] = 10.0 ** -rng.uniform(17, 300) if rng.random() < 0.8 else 5e-324
+    elif kind == "small_xi" and xi_slots:
+        # parameters 1e-8 .. 1e-13 of the preceding ones: their squares are below an f64 ulp of the products they are compared with,
+        # their first powers are not
+        for i in rng.sample(xi_slots, min(len(xi_slots), rng.randint(1, 2))):
+            xs[i] = 10.0 ** -rng.uniform(8, 13)
     elif kind == "zero_xi" and xi_slots:
         i = rng.choice(xi_slots)
         xs = [min(max(x, 5e-324), 1 - 2.0 ** -53) for x in xs]
@@ -242,8 +247,9 @@ def point(rng, dim, kind="uniform", n_edges=None):
     elif kind == "angles" and E:
         for i in range(2 * E - 1, dim):
             if (i - (2 * E - 1)) % 2 == 1 and rng.random() < 0.7:
-                xs[i] = rng.choice([0.0, 0.25, 0.5, 0.75, 0.125, 0.375])
-        xs = [min(max(x, 0.0), 1 - 2.0 ** -53) for x in xs]
+                xs[i] = rng.choice([0.0, 0.25, 0.5, 0.75, 0.125, 0.375, 1.0, 1.0])
+        # (an angle coordinate may be exactly 1: cos(2 pi) = 1; the property restricts only the radius coordinate to (0,1))
+        xs = [x if (i >= 2 * E - 1 and (i - (2 * E - 1)) % 2 == 1 and x == 1.0) else min(max(x, 0.0), 1 - 2.0 ** -53) for i, x in enumerate(xs)]
         return xs
     if kind == "corner":
         for i in range(dim):
@@ -280,7 +286,7 @@ def build_tables(cases):
 
 
 def generate(ctx, n_graphs, pts, max_e=6, max_loops=3, kinds=("uniform", "uniform", "corner", "edge1"), variant="random",
-             routings_per_graph=1, names=None, mass_mode=None, special=(), ext_modes=None, scales=(1,), decouple=0.0, dims=None):
+             routings_per_graph=1, names=None, mass_mode=None, special=(), ext_modes=None, scales=(1,), decouple=0.0, dims=None, plane=None):
     """returns list of dict(case, routing, table, xs, req, kind); `special` = kinds of make_special_case to append"""
     rng = ctx.rng
     cases = []
@@ -316,7 +322,7 @@ def generate(ctx, n_graphs, pts, max_e=6, max_loops=3, kinds=("uniform", "unifor
             ctx.mismatch(f"subgraph table of the implementation vs the exact oracle: subset {m0:#b} has (loops, spanning) = ({ent[m0][0]}, {bool(ent[m0][1])}), "
                          f"the definition gives ({c['table'][m0][0]}, {bool(c['table'][m0][1])}); {len(wrong)} subsets differ", graphs.request(c),
                          {"subset": m0, "loops": ent[m0][0], "spanning": bool(ent[m0][1])}, {"subset": m0, "loops": c["table"][m0][0], "spanning": bool(c["table"][m0][1])})
-        kinem = make_kinematics(rng, c, scale=rng.choice(scales), decouple=dec)
+        kinem = make_kinematics(rng, c, scale=rng.choice(scales), decouple=dec, plane=plane)
         kinem["decoupled"] = dec
         routings = [make_routing(rng, c, "fundamental" if (k == 0 and routings_per_graph > 1) else
                                  ("face" if variant == "random" and gen.face_basis(c.get("name", ""), c["edges"]) is not None and rng.random() < 0.7 else variant), kinem)
